@@ -97,6 +97,24 @@ fn main() {
         println!("labels: p={:?} d={:?} dom_1={:?}", fams[0].1.wild[0], fams[0].1.dom[0], fams[0].1.dom[1]);
         return;
     }
+    if id == "EGTEST" {
+        let k: u16 = args[3].parse().unwrap();
+        let big = bigmodels::load(&args[2], k).expect("load");
+        let names = formulas::Names::user(&big.var_names());
+        let cube = names.props.join(" & ");
+        for t in [format!("~({cube})"), format!("EX ~({cube})"), format!("EG ~({cube})")] {
+            let t0 = std::time::Instant::now();
+            let r = biodivine_hctl_model_checker::model_checking::model_check_formula_dirty(&t, &big.graph).unwrap();
+            eprintln!("{} -> nodes {} in {:?}", &t[..12], r.as_bdd().size(), t0.elapsed());
+            if t.starts_with("EG") {
+                use biodivine_lib_param_bn::biodivine_std::traits::Set;
+                let nc = biodivine_hctl_model_checker::model_checking::model_check_formula_dirty(&format!("~({cube})"), &big.graph).unwrap();
+                let diff = nc.minus(&r);
+                eprintln!("(~cube) minus EG: {} pairs, {} colours; aeon head: {}", diff.approx_cardinality(), diff.colors().approx_cardinality(), big.bn.to_string().lines().filter(|l| l.contains("c3")).collect::<Vec<_>>().join(" ; "));
+            }
+        }
+        return;
+    }
     if id == "LOADTEST" {
         let n: usize = args[2].parse().unwrap();
         let name = |i: usize| format!("x{i:02}");
